@@ -69,6 +69,21 @@ def writer_table(fi):
     return table
 
 
+def _text_shape(e):
+    """a string-building expression as a term in which f-strings keep their parts (literal text and formatted terms)"""
+    if isinstance(e, ast.JoinedStr):
+        parts = []
+        for v in e.values:
+            if isinstance(v, ast.Constant):
+                parts.append(('const', v.value))
+            else:
+                parts.append(('fmt', T.norm(v.value), v.conversion, _text_shape(v.format_spec) if v.format_spec is not None else ('const', None)))
+        return ('fstring', tuple(parts))
+    if isinstance(e, ast.BinOp) and isinstance(e.op, ast.Add):
+        return ('concat', (_text_shape(e.left), _text_shape(e.right)))
+    return T.norm(e)
+
+
 def reader_table(fi):
     """tuple of literal tokens -> set of State methods called (from the match over the words)"""
     table = {}
@@ -130,6 +145,31 @@ def run(chk, ctx) -> None:
         if cls not in VERBS:
             chk.ob('C16.verbs', f'write:{cls}', False, fgs.loc, 'an operation class is written with a verb the PHH grammar does not have', got=wt[cls][0])
     chk.floor('C16.verbs', 16)
+    # what is written after the verb is the whole content of the record (nothing filtered, nothing re-ordered): the shape of
+    # every written action text, f-strings compared part by part
+    want_text = {
+        'StandingPatOrDiscarding': "f'p{operation.player_index + 1} sd ' + ''.join(map(repr, operation.cards))",
+        'BringInPosting': "f'p{operation.player_index + 1} pb'",
+        'Folding': "f'p{operation.player_index + 1} f'",
+        'CheckingOrCalling': "f'p{operation.player_index + 1} cc'",
+        'CompletionBettingOrRaisingTo': "f'p{operation.player_index + 1} cbr {operation.amount}'",
+        'HoleCardsShowingOrMucking': "f'p{operation.player_index + 1} sm ' + ''.join(map(repr, operation.hole_cards))",
+        'HoleDealing': "f'd dh p{player_index + 1} ' + ''.join(map(repr, hole_cards[player_index]))",
+        'BoardDealing': "'d db ' + ''.join(map(repr, board_cards))",
+    }
+    for cls, src in want_text.items():
+        got = wt.get(cls)
+        if got is None:
+            continue
+        ok = T.alpha_eq(_text_shape(got[1].value), _text_shape(ast.parse(src, mode='eval').body), ctx.m.var_test(fgs.node))
+        chk.ob('C16.verbs', f'text:{cls}', ok, ctx.loc(fgs, got[1]),
+               'the action text is the player, the verb and the complete content of the record (every card, the amount) - nothing filtered',
+               got=ast.unparse(got[1].value)[:160], want=src)
+    # the dealing actions accumulate exactly the cards of the dealing records
+    acc = {'BoardDealing': 'board_cards.extend(operation.cards)', 'HoleDealing': 'hole_cards[operation.player_index].extend(operation.cards)'}
+    for cls, src in acc.items():
+        ok = bool(ctx.m.calls(fgs.node, src))
+        chk.ob('C16.verbs', f'accumulate:{cls}', ok, fgs.loc, 'dealt cards are collected from the dealing record, per player / for the board, all of them', want=src)
     # player numbering: written 1-based from player_index + 1, read back with - 1
     # every number written right after the literal `p` is a 0-based index plus one
     plus = []
